@@ -22,6 +22,7 @@ func checkC06(c *chk.Ctx) {
 		"R06c every apply site passes the offset and timestamp of the very log entry and the same callback chain",
 		"R06d the persisted last-version-id is read from the counter after the request was applied; the in-memory counter must not run ahead of an uncommitted batch (open finding F15)",
 		"R06e snapshot: sender flushes before the checkpoint; the receiver takes commit offset and head from the installed DB",
+		"R06f a decode target reused across the entries of an apply pass is reset before each entry is decoded",
 	}
 	c.NotDec = []string{
 		"equality of two replicas' state for every request mix (value-level)",
@@ -33,6 +34,7 @@ func checkC06(c *chk.Ctx) {
 	ruleR06c(h, "R06c")
 	ruleR06d(h)
 	ruleR06e(h)
+	ruleReusedDecodeTargetReset(h, "R06f")
 }
 
 // applyRoots returns the implementations of kv.DB.ProcessWrite.
@@ -286,8 +288,18 @@ func isAtomicCallOnField(v ssa.Value, method, pkg, typ, field string) (*ssa.Call
 }
 
 func ruleR06d(h *H) {
-	const rule = "R06d"
-	h.Rule(rule, "K1", "ProcessWrite persists the version counter as read after the request's operations were applied; a ProcessWrite that fails after the counter was advanced must restore it", 2)
+	ruleR06dInto(h, "R06d", true)
+}
+
+// ruleR06dInto: withRollback=false evaluates only the ordering clause (shared with the
+// properties that rely on version ids never being re-issued); the rollback clause, which
+// has an open known finding, belongs to C06 alone.
+func ruleR06dInto(h *H, rule string, withRollback bool) {
+	min := 1
+	if withRollback {
+		min = 2
+	}
+	h.Rule(rule, "K1", "ProcessWrite persists the version counter as read after the request's operations were applied; a ProcessWrite that fails after the counter was advanced must restore it (C06 only)", min)
 	for _, fn := range applyRoots(h, rule) {
 		dbt := namedName(fn.Signature.Recv().Type())
 		// the apply call: static call reaching versionIdTracker.Add
@@ -353,6 +365,9 @@ func ruleR06d(h *H) {
 		})
 		if n == 0 {
 			h.Bad(rule, "version counter persisted in "+ir.FuncName(fn), h.P.Pos(fn.Pos()), "ProcessWrite does not read versionIdTracker: the counter is not persisted with the batch")
+		}
+		if !withRollback {
+			continue
 		}
 		// error returns after the apply call must restore the counter
 		restores := func(in ssa.Instruction) bool {
